@@ -128,7 +128,13 @@ def invoke(fn, names_, args, environment, pos):
     try:
         return fn.execute(args_, environment, pos)
     except CklRuntimeError as e:
-        e.stacktrace.append(getFuncallString(fn, args_) + " " + str(pos))
+        try:
+            call = getFuncallString(fn, args_)
+        except Exception:
+            # rendering an argument failed (e.g. its _str_ member raised):
+            # the error in flight is the one to pass on
+            call = fn.name + "(...)"
+        e.stacktrace.append(call + " " + str(pos))
         raise
     except CklSyntaxError:
         raise
